@@ -153,9 +153,41 @@ def features(v):
     return lenient_num, qpair, htab
 
 
+WELLQ = re.compile(rb'"(?:[\t \x21\x23-\x5b\x5d-\x7e\x80-\xff]|\\[\t \x20-\x7e\x80-\xff])*"')
+
+
+def list_cause(case):
+    """True when the private/no-cache part of the result is (also) a reason for the rejection: the observed field list is
+    not one the RFC reading admits (Python mirror of CacheControl.AllowedList, used for the witness label only), or the
+    second parse returned different lists."""
+    occ = {l: [] for l in LISTS}
+    for e in split_elems(bytes(case['v'])):
+        name, eq, arg = e.partition(b'=')
+        n = name.lower().decode('latin-1')
+        if n in occ:
+            occ[n].append((bool(eq), arg))
+    for l in LISTS:
+        got, got2 = case['c1']['l'][l], case['c2']['l'][l]
+        if (got['has'], got['v'] if got['has'] else None) != (got2['has'], got2['v'] if got2['has'] else None):
+            return True
+        well = [re.sub(rb'\\(.)', rb'\1', a[1:-1], flags=re.S) for h, a in occ[l] if h and WELLQ.fullmatch(a)]
+        bare = any(not h for h, a in occ[l])
+        malformed = any(h and not WELLQ.fullmatch(a) for h, a in occ[l])
+        if not occ[l] and got['has']:
+            return True
+        if (well or bare) and not got['has']:
+            return True
+        if got['has'] and not malformed and not (bytes(got['v']) in well or (not got['v'] and bare)):
+            return True
+    return False
+
+
 def classify(case, i_accepts):
     ln, qp, ht = features(bytes(case['v']))
-    feat = 'quoted-pair-of-dquote-or-backslash' if qp else 'htab-in-quoted-string' if ht else 'lenient-delta-seconds' if ln else 'other'
+    if list_cause(case):
+        feat = 'quoted-pair-of-dquote-or-backslash' if qp else 'htab-in-quoted-string' if ht else 'field-list'
+    else:
+        feat = 'lenient-delta-seconds' if ln else 'other'
     return {'feature': feat, 'i_layer': 'accepts' if i_accepts else 'rejects', 'roundtrip': 'same' if proj(case['c1']) == proj(case['c2']) else 'differs'}
 
 
